@@ -117,6 +117,128 @@ theorem getitem_refuses_iff_empty (first last step : Int) (hs : step ≠ 0) :
     (∃ e, getitemAxisItem first last step = .error e) ↔ sliceLen first last step = 0 :=
   getitemAxisItem_err hs
 
+/-- An int index `k` with `-n ≤ k < n` on an axis of size `n` is accepted and selects exactly plane `k`
+(`k + n` for negative `k`), one voxel thick — `checkInt`, `intToSlice` (the `-1` special case), `slice.indices` and the
+size arithmetic composed. -/
+theorem getitem_int_selects (k n : Int) (hn : 0 < n) (hk : -n ≤ k ∧ k < n) :
+    axisOfItem (some (Item.int k)) n = .ok ⟨if k < 0 then k + n else k, 1, 1, 1⟩ :=
+  int_axis_map hn hk
+
+/-- An int index outside the axis is refused with IndexError — never wrapped, never clamped. -/
+theorem getitem_int_refused (k n : Int) (hk : k < -n ∨ n ≤ k) : axisOfItem (some (Item.int k)) n = .error .index :=
+  int_axis_refused hk
+
+/-! ## what the individual operations do -/
+
+/-- **flip_spatial** with valid axes is accepted on every volume; flipped axis `d` is read backwards
+(`j ↦ n_d - 1 - j`), its column is negated and the origin moves to the last voxel; other axes and the shape are
+unchanged. -/
+theorem flip_spec (g : Geom) (axes : List Int) (hp : g.Pos)
+    (hv : (axes.length > 3 || axes.any (fun a => !validAxis a)) = false) :
+    ∃ r, flipG AxMap.size g axes = .ok r ∧ r.1.n0 = g.n0 ∧ r.1.n1 = g.n1 ∧ r.1.n2 = g.n2 ∧
+      (∀ j, r.2 j = ⟨if axes.contains 0 then g.n0 - 1 - j.i0 else j.i0, if axes.contains 1 then g.n1 - 1 - j.i1 else j.i1,
+                     if axes.contains 2 then g.n2 - 1 - j.i2 else j.i2⟩) ∧
+      r.1.c0 = V3.smul (if axes.contains 0 then -1 else 1) g.c0 ∧ r.1.c1 = V3.smul (if axes.contains 1 then -1 else 1) g.c1 ∧
+      r.1.c2 = V3.smul (if axes.contains 2 then -1 else 1) g.c2 := by
+  refine ⟨_, flipG_spec AxMap.size g axes hp hv, ?_, ?_, ?_, ?_, ?_, ?_, ?_⟩
+  · simp only [Geom.remap, flipMap]; split <;> rfl
+  · simp only [Geom.remap, flipMap]; split <;> rfl
+  · simp only [Geom.remap, flipMap]; split <;> rfl
+  · intro j
+    simp only [remapSrc, flipMap, I3.mk.injEq]
+    refine ⟨?_, ?_, ?_⟩ <;> split <;> simp <;> ring
+  · simp only [Geom.remap, flipMap]; split <;> simp
+  · simp only [Geom.remap, flipMap]; split <;> simp
+  · simp only [Geom.remap, flipMap]; split <;> simp
+
+/-- **pad_to / crop_to / pad_or_crop_to_spatial_shape**: an accepted request yields exactly the requested spatial
+shape (for a `VolumeGeometry` and for the array of a `Volume` alike). -/
+theorem padTo_shape (g : Geom) (s : List Int) (r : GStep) (h : padToG AxMap.size g s = .ok r) :
+    s = [r.1.n0, r.1.n1, r.1.n2] := padToG_shape AxMap.size szOk_size h
+
+theorem cropTo_shape (g : Geom) (s : List Int) (r : GStep) (h : cropToG AxMap.size g s = .ok r) :
+    s = [r.1.n0, r.1.n1, r.1.n2] := cropToG_shape AxMap.size szOk_size h
+
+theorem padOrCropTo_shape (g : Geom) (s : List Int) (r : GStep) (h : padOrCropG AxMap.size g s = .ok r) :
+    s = [r.1.n0, r.1.n1, r.1.n2] := padOrCropG_shape AxMap.size szOk_size h
+
+/-- **ensure_handedness**: whatever is accepted has the requested handedness (already right: unchanged; otherwise
+one flip or one swap negates the triple product, which is non-zero for a scaled orthogonal affine). -/
+theorem ensureHandedness_spec (g : Geom) (hd : String) (fa : Option Int) (sa : Option (List Int)) (r : GStep)
+    (wantLeft : Bool) (hp : g.Pos) (ho : g.Orth) (hw : parseHandedness hd = some wantLeft)
+    (h : ensureHandednessG AxMap.size g hd fa sa = .ok r) : r.1.leftHanded = wantLeft :=
+  VolLemmas.ensureHandedness_spec AxMap.size hp ho hw h
+
+/-! ## new voxels are padding -/
+
+/-- `pad` on a volume: retained voxels (provenance defined) were treated above; here the new ones.
+CONSTANT: the constant (cast to the dtype of the array); the dtype is kept. -/
+theorem pad_new_voxels_constant (coord : Coord) (v : Vol) (wd : PadWidth) (o : PadOpts) (w : VStep)
+    (hm : o.mode = "CONSTANT") (h : (SOp.pad wd o).applyVol coord v = .ok w) (j : I3) (hj : w.2 j = none) (c : List Nat) :
+    w.1.arr j c = castTo v.isInt o.cval ∧ w.1.isInt = v.isInt := by
+  simp only [SOp.applyVol] at h
+  obtain ⟨_, _, h⟩ := bind_ok.mp h
+  obtain ⟨r, _, h⟩ := bind_ok.mp h
+  simp only [Vol.padStep] at h
+  obtain ⟨⟨a, b⟩, ha, h⟩ := bind_ok.mp h
+  simp only [pure, Except.pure, Except.ok.injEq] at h
+  subst h
+  exact padArray_constant hm ha j (provOf_none hj) c
+
+/-- EDGE: the value of the nearest voxel of the input (index clamped per axis), which is a voxel. -/
+theorem pad_new_voxels_edge (coord : Coord) (v : Vol) (wd : PadWidth) (o : PadOpts) (w : VStep) (hp : v.geom.Pos)
+    (hm : o.mode = "EDGE") (h : (SOp.pad wd o).applyVol coord v = .ok w) (j : I3) (hj : w.2 j = none) (c : List Nat) :
+    ∃ i, v.geom.inRange i = true ∧ w.1.arr j c = v.arr i c ∧
+      ∃ f : I3 → I3, (∀ j, w.1.geom.pos j = v.geom.pos (f j)) ∧ i = v.geom.clamp (f j) := by
+  simp only [SOp.applyVol] at h
+  obtain ⟨_, _, h⟩ := bind_ok.mp h
+  obtain ⟨r, hr, h⟩ := bind_ok.mp h
+  have hs := (padG_sound AxMap.alen szOk_alen hp hr).1
+  simp only [Vol.padStep] at h
+  obtain ⟨⟨a, b⟩, ha, h⟩ := bind_ok.mp h
+  simp only [pure, Except.pure, Except.ok.injEq] at h
+  subst h
+  exact ⟨v.geom.clamp (r.2 j), clamp_inRange hp _, (padArray_edge hm ha j (provOf_none hj) c).1, r.2, hs.position, rfl⟩
+
+/-- MINIMUM / MAXIMUM / MEAN / MEDIAN over the whole array (no per-channel treatment): every new voxel holds the
+statistic of all input values, cast to the dtype. -/
+theorem pad_new_voxels_statistic (coord : Coord) (v : Vol) (wd : PadWidth) (o : PadOpts) (w : VStep) (mode : PadMode)
+    (hm : PadMode.parse o.mode = some mode) (hs : isStat mode = true)
+    (hpc : (o.perChannel && !(v.cshape.isEmpty || v.cshape == [1])) = false)
+    (h : (SOp.pad wd o).applyVol coord v = .ok w) (j : I3) (hj : w.2 j = none) (c : List Nat) :
+    ∃ x, statOf mode v.values = some x ∧ w.1.arr j c = castTo v.isInt x ∧ w.1.isInt = v.isInt := by
+  simp only [SOp.applyVol] at h
+  obtain ⟨_, _, h⟩ := bind_ok.mp h
+  obtain ⟨r, _, h⟩ := bind_ok.mp h
+  simp only [Vol.padStep] at h
+  obtain ⟨⟨a, b⟩, ha, h⟩ := bind_ok.mp h
+  simp only [pure, Except.pure, Except.ok.injEq] at h
+  subst h
+  exact padArray_stat_global hm hs hpc ha j (provOf_none hj) c
+
+/-- The same per channel (`per_channel=True`, more than one channel): the statistic of that channel alone; the
+result is a floating-point array. -/
+theorem pad_new_voxels_per_channel (coord : Coord) (v : Vol) (wd : PadWidth) (o : PadOpts) (w : VStep) (mode : PadMode)
+    (hm : PadMode.parse o.mode = some mode) (hs : isStat mode = true)
+    (hpc : (o.perChannel && !(v.cshape.isEmpty || v.cshape == [1])) = true)
+    (h : (SOp.pad wd o).applyVol coord v = .ok w) (j : I3) (hj : w.2 j = none) (c : List Nat)
+    (hc : c ∈ chanIndices v.cshape) :
+    ∃ x, statOf mode (v.channelValues c) = some x ∧ w.1.arr j c = castTo v.isInt x ∧ w.1.isInt = false := by
+  simp only [SOp.applyVol] at h
+  obtain ⟨_, _, h⟩ := bind_ok.mp h
+  obtain ⟨r, _, h⟩ := bind_ok.mp h
+  simp only [Vol.padStep] at h
+  obtain ⟨⟨a, b⟩, ha, h⟩ := bind_ok.mp h
+  simp only [pure, Except.pure, Except.ok.injEq] at h
+  subst h
+  exact padArray_stat_perChannel hm hs hpc ha j (provOf_none hj) c hc
+
+/-- MINIMUM / MAXIMUM are the least / greatest of the values they are computed from. -/
+theorem minimum_is_least (l : List Rat) (m : Rat) (h : statOf .minimum l = some m) : m ∈ l ∧ ∀ x ∈ l, m ≤ x :=
+  listMin_spec h
+theorem maximum_is_greatest (l : List Rat) (m : Rat) (h : statOf .maximum l = some m) : m ∈ l ∧ ∀ x ∈ l, x ≤ m :=
+  listMax_spec h
+
 /-! ## non-vacuity -/
 
 /-- a left-handed, rotated (axis-swapping), anisotropic geometry of shape 4 × 3 × 5 -/
